@@ -238,6 +238,81 @@ def build_alphabet(ga: dict, tier: str = "thorough"):
     add("iban-pl-bic-then-fields", lambda: (I("PL61109010140000071219812874").bic,
                                             I("PL61109010140000071219812874").bank_code,
                                             I("SI56263300012039086").bic, I("SI56263300012039086").bank_code), True)
+    # ---- a bank-less country drawn with a pinned bank code while the registry is switched on
+    add("random-mu-pinned-bank-registry", lambda: I.random("MU", random=random.Random(9), bank_code="BOMM01"))
+    add("random-br-pinned-bank-registry", lambda: I.random("BR", random=random.Random(10), bank_code="00360305"))
+    # ---- subclasses of the value classes, and bank codes with several registry entries
+    class ReportBIC(B):
+        pass
+
+    class ReportIBAN(I):
+        pass
+    multi = sorted(k for k, es in lookup.by_key().items() if len(es) > 1 and k[0] in ("DE", "FR")
+                   and sum(1 for e in es if e.get("bic")) > 1)[:2]
+    for cc_m, code_m in multi:
+        tm = c12_build(cc_m, code_m)
+        add(f"multi-{cc_m}-from_bank_code", (lambda a=cc_m, b=code_m: B.from_bank_code(a, b)))
+        add(f"multi-{cc_m}-candidates", (lambda a=cc_m, b=code_m: B.candidates_from_bank_code(a, b)), True)
+        add(f"multi-{cc_m}-subclass-from_bank_code", (lambda a=cc_m, b=code_m: ReportBIC.from_bank_code(a, b)), True)
+        add(f"multi-{cc_m}-subclass-candidates", (lambda a=cc_m, b=code_m: ReportBIC.candidates_from_bank_code(a, b)))
+        if tm:
+            add(f"multi-{cc_m}-iban-bic", (lambda t=tm: I(t).bic))
+            add(f"multi-{cc_m}-subclass-iban-bic", (lambda t=tm: (ReportIBAN(t).bic, ReportIBAN(t).bban)))
+    add("subclass-iban", lambda: (ReportIBAN(VALID), ReportIBAN(VALID).bban, ReportIBAN.generate("DE", "37040044", "532013000")))
+    add("subclass-bic", lambda: ReportBIC("GENODEM1GLS"))
+    # ---- the same lookup key under two countries (the registry index is keyed by country AND key)
+    by_text: dict = {}
+    for (cc_k, key_k) in lookup.by_key():
+        by_text.setdefault(key_k, []).append(cc_k)
+    shared = sorted(k for k, ccs in by_text.items() if len(ccs) > 1)
+    picked = [k for k in shared if "DE" in by_text[k]][:3] + [k for k in shared if "DE" not in by_text[k]][:1]
+    from ..ref import bbk as _bbk
+    from . import c07 as _c07
+    for key_k in picked:
+        for cc_k in sorted(by_text[key_k]):
+            tk = c12_build(cc_k, key_k)
+            if tk:
+                add(f"shared-key-{key_k}-{cc_k}", (lambda t=tk: (I(t).bank_name, I(t).bic, I(t).bank)),
+                    core=(cc_k != "DE" and key_k == picked[0]))
+        if "DE" in by_text[key_k]:
+            m_k = lookup.german_method(key_k + "0" * 10)
+            if m_k in _bbk.METHODS and ("DE:" + m_k) in alg:
+                rej = next((a for b_ in _c07.bases_for(m_k) for a in _c07.deviations(b_, 1)
+                            if _bbk.verdict(m_k, a) is False), None)
+                if rej:
+                    bb_ = key_k + rej
+                    add(f"shared-key-{key_k}-DE-rejected-account",
+                        (lambda t="DE" + ri.check_digits("DE", bb_) + bb_: I(t, validate_bban=True)))
+    # a listed German code carried by an IBAN of a country where it is NOT listed
+    for cc_k in ("PL", "HU", "CH"):
+        tk = c12_build(cc_k, "37040044")
+        if tk and (cc_k, "37040044") not in lookup.by_key():
+            add(f"german-code-unlisted-in-{cc_k}", (lambda t=tk: (I(t).bank, I(t).bic)))
+            break
+    # ---- warnings escalated to errors / recorded: the deprecated accessors warn on EVERY call
+    import warnings
+
+    def escalated(fn):
+        def run():
+            with warnings.catch_warnings():
+                warnings.simplefilter("error")
+                return fn()
+        return run
+
+    def recorded(fn):
+        def run():
+            with warnings.catch_warnings(record=True) as w:
+                warnings.simplefilter("always")
+                v = fn()
+            return (v, sorted(type(x.message).__name__ for x in w))
+        return run
+    for acc in ("country_bank_code", "bank_name", "bank_short_name"):
+        add(f"deprecated-{acc}-warnings-as-errors", escalated(lambda acc=acc: getattr(B("MARKDEF1100"), acc)),
+            core=(acc == "bank_name"))
+        add(f"deprecated-{acc}-warnings-recorded", recorded(lambda acc=acc: getattr(B("GENODEM1GLS"), acc)))
+    add("iban-lower-warnings-as-errors", escalated(lambda: I("de89 3704 0044 0532 0130 00")))
+    add("generate-combined-warnings-as-errors", escalated(lambda: I.generate("GB", "NWBK601613", "31926819")))
+    add("lookup-warnings-recorded", recorded(lambda: B.from_bank_code("DE", "43060967")))
     for cc in sorted(lookup.by_country()):
         add(f"random-{cc}", (lambda cc=cc: I.random(cc, random=random.Random(31))), group="xrandom")
     np = ga.get("nonprimary_first")
